@@ -80,12 +80,16 @@ class ULPIRegisterWindow(Elaboratable):
         self.write_request = Signal()
         self.write_data    = Signal(8)
 
+        # Arguments of the transaction in flight; latched when the request is accepted.
+        self.current_address = Signal(6)
+        self.current_write   = Signal(8)
+
 
     def elaborate(self, platform):
         m = Module()
 
-        current_address = Signal(6)
-        current_write   = Signal(8)
+        current_address = self.current_address
+        current_write   = self.current_write
 
         # Keep our control signals low unless explicitly asserted.
         m.d.usb += [
@@ -136,7 +140,7 @@ class ULPIRegisterWindow(Elaboratable):
 
                     # Once it is, start sending our command.
                     m.d.usb += [
-                        self.ulpi_data_out .eq(self.COMMAND_REG_READ | self.address),
+                        self.ulpi_data_out .eq(self.COMMAND_REG_READ | current_address),
                         self.ulpi_out_req  .eq(1)
                     ]
 
@@ -195,7 +199,7 @@ class ULPIRegisterWindow(Elaboratable):
 
                     # Once it is, start sending our command.
                     m.d.usb += [
-                        self.ulpi_data_out .eq(self.COMMAND_REG_WRITE | self.address),
+                        self.ulpi_data_out .eq(self.COMMAND_REG_WRITE | current_address),
                         self.ulpi_out_req  .eq(1)
                     ]
 
@@ -213,7 +217,7 @@ class ULPIRegisterWindow(Elaboratable):
                 # Hold our address until the PHY has accepted the command;
                 # and then move to presenting the PHY with the value to be written.
                 with m.Elif(self.ulpi_next):
-                    m.d.usb += self.ulpi_data_out.eq(self.write_data)
+                    m.d.usb += self.ulpi_data_out.eq(current_write)
                     m.next = 'HOLD_WRITE'
 
 
@@ -447,13 +451,15 @@ class ULPIControlTranslator(Elaboratable):
 
         # If we've just finished a write, update our current register value.
         with m.If(write_done):
-            m.d.usb += current_register_value.eq(write_value),
+            m.d.usb += current_register_value.eq(self.register_window.current_write),
 
         # If we have a mismatch between the requested and actual register value,
         # request a write of the new value.
-        m.d.comb += write_requested.eq(current_register_value != value)
-        with m.If(current_register_value != value):
-            m.d.usb += write_value.eq(value)
+        m.d.comb += [
+            write_requested.eq(current_register_value != value),
+            write_value.eq(value),
+            write_done.eq(self.register_window.done & (self.register_window.current_address == address))
+        ]
 
 
     def populate_ulpi_registers(self, m):
@@ -500,9 +506,6 @@ class ULPIControlTranslator(Elaboratable):
                     self.bus_idle
 
                 m.d.comb += [
-
-                    # Control signals.
-                    signals['write_done']              .eq(self.register_window.done),
 
                     # Register window signals.
                     self.register_window.address       .eq(address),
